@@ -32,7 +32,9 @@ partial def valOf : Sx → Option Val
   | .atom "none" => some .onone
   | .atom s => s.toNat?.map Val.atom
   | .list (.atom "l" :: xs) => (xs.mapM nat?).map Val.list
-  | .list (.atom "e" :: xs) => (xs.mapM nat?).map Val.list          -- enum values are opaque: encoded as a list
+  | .list (.atom "e" :: xs) =>
+    -- an enum value: variant index + payload atoms, compared field by field with the atoms' own `==`
+    (xs.mapM nat?).map fun ns => Val.strct (Vals.ofList ((Val.atom 2000000) :: ns.map Val.atom))
   | .list (.atom "p" :: xs) => (xs.mapM fun
       | Sx.list [a, b] => do some ((← nat? a), (← nat? b))
       | _ => none).map Val.pairs
@@ -51,6 +53,7 @@ partial def valSx : Val → Sx
   | .atom n => ofNat n
   | .list l => tag "l" (l.map ofNat)
   | .pairs l => tag "p" (l.map fun (a, b) => .list [ofNat a, ofNat b])
+  | .strct (.cons (.atom 2000000) rest) => tag "e" (rest.toList.map valSx)
   | .strct vs => tag "s" (vs.toList.map valSx)
   | .onone => .atom "none"
   | .osome v => tag "some" [valSx v]
@@ -124,7 +127,8 @@ def handle : List Sx → Sx
       tag "ok" [tag "diff" [entriesSx d], tag "diffref" [entriesSx dr],
         tag "apply" [resSx (S.apply a d)], tag "applyref" [resSx (S.applyRef a d)], tag "applymut" [resSx (S.applyMut a d)],
         tag "single" [resSx (singles S a d)], tag "applyrefd" [resSx (S.apply a dr)],
-        tag "follow" [resSx (S.apply f d)], tag "followref" [resSx (S.apply f dr)]]
+        tag "follow" [resSx (S.apply f d)], tag "followref" [resSx (S.apply f dr)],
+        tag "fapplyref" [resSx (S.applyRef f d)], tag "fapplymut" [resSx (S.applyMut f d)], tag "fsingle" [resSx (singles S f d)]]
     | _, _, _, _ => tag "bad-req" []
   | [tyx, .atom "subset", a, b, idx] =>
     match tyOf tyx, valOf a, valOf b, nats? idx with
